@@ -235,6 +235,7 @@ def main_check(prop: str, tier: str, seed: int) -> int:
         env["PYTHONHASHSEED"] = str((seed * 7919 + shard * 104729 + 1) % 4294967295)
         env["PYTHONDONTWRITEBYTECODE"] = "1"
         env["VCHECK_REPO"] = REPO
+        env["VCHECK_CUR"] = os.path.join(work, f"shard{shard}.cur")
         cmd = [sys.executable, "-m", "vcheck", prop, "--tier", tier, "--seed", str(seed),
                "--shard", f"{shard}/{nshards}", "--out", out]
         log = open(os.path.join(work, f"shard{shard}.log"), "w", encoding="utf-8")  # noqa
@@ -242,6 +243,7 @@ def main_check(prop: str, tier: str, seed: int) -> int:
 
     results = []
     inconclusive = []
+    dead_violations = []
     for shard, out, log, proc in procs:
         left = max(5.0, watchdog - (time.time() - t0))
         try:
@@ -261,7 +263,13 @@ def main_check(prop: str, tier: str, seed: int) -> int:
                     tail = fh.read()[-600:]
             except OSError:
                 pass
-            inconclusive.append(f"shard {shard} wrote no result (rc={proc.returncode}) {tail!r}")
+            death = None
+            if hasattr(mod, "on_shard_death"):
+                death = mod.on_shard_death(shard, proc.returncode, os.path.join(work, f"shard{shard}.cur"))
+            if death is not None:
+                dead_violations.append(death)
+            else:
+                inconclusive.append(f"shard {shard} wrote no result (rc={proc.returncode}) {tail!r}")
 
     # merge
     evaluations = sum(r["evaluations"] for r in results)
@@ -274,6 +282,7 @@ def main_check(prop: str, tier: str, seed: int) -> int:
         for k, v in r["counters"].items():
             counters[k] = counters.get(k, 0) + v
     violations = [(r.get("hashseed", ""), v) for r in results for v in r["violations"]]
+    violations += [("", v) for v in dead_violations]
     known = {}
     for r in results:
         for k, rec in r["known"].items():
@@ -305,7 +314,7 @@ def main_check(prop: str, tier: str, seed: int) -> int:
             inconclusive.append(f"deciding monitor/counter {name!r} was never reached")
 
     wall = round(time.time() - t0, 2)
-    total_viol = counters.get("violations", 0) + sum(1 for h, v in violations if v["what"].startswith("[unlisted"))
+    total_viol = len(dead_violations) + counters.get("violations", 0) + sum(1 for h, v in violations if v["what"].startswith("[unlisted"))
     evidence = {
         "property_id": prop,
         "tier": tier,
